@@ -7,10 +7,12 @@ pub mod c02;
 pub mod c03;
 pub mod c04;
 pub mod c05;
+pub mod c06;
 pub mod c07;
 pub mod c09;
 pub mod c10;
 pub mod c11;
+pub mod c12;
 pub mod c13;
 pub mod c14;
 pub mod c15;
@@ -47,10 +49,12 @@ pub fn subs(id: &str) -> Vec<Box<dyn Sub>> {
         "C03" => c03::subs(),
         "C04" => c04::subs(),
         "C05" => c05::subs(),
+        "C06" => c06::subs(),
         "C07" => c07::subs(),
         "C09" => c09::subs(),
         "C10" => c10::subs(),
         "C11" => c11::subs(),
+        "C12" => c12::subs(),
         "C13" => c13::subs(),
         "C14" => c14::subs(),
         "C15" => c15::subs(),
